@@ -70,6 +70,10 @@ CLASSES = ["direct/elliptic", "direct/hyperbolic", "direct/dt>P", "direct/dt>100
           ["step/massive_planet", "step/loose_tolerance", "step/prelude"] + ["step/prelude:" + k for k in PRELUDE_NAMES] + \
           [ "step512/whfast512:asserted", "step512/padded",
            "step512/known_region", "step512/known_padding_region"] + ["step512/lane%d" % i for i in range(8)] + \
+          ["schedule/" + k for k in ["whfast:jacobi", "whfast:democraticheliocentric", "whfast:whds",
+                                     "whfast:barycentric", "mercurius", "trace", "saba", "safe_mode0", "safe_mode1"]] + \
+          ["schedule/saba:" + t for t in ["1", "2", "3", "4", "10,4", "8,6,4", "10,6,4", "h8,4,4", "h8,6,4", "h10,6,4"]] + \
+          ["schedule/steps_then_integrate:frac=%g" % x for x in (0.0, 1e-6, 0.3, 1.0, 1.7, 3.2)] + \
           ["multistep/asserted", "multistep/unsynchronized+variations", "multistep/var:none", "multistep/var:variation",
            "multistep/var:megno", "multistep/safe_mode0", "multistep/safe_mode1", "multistep/keep_unsynchronized1"]
 VARIANTS = ["avx512"]
@@ -861,6 +865,176 @@ def run_multi(c, ctx):
             ctx.nontrivial()
 
 
+# ---------------------------------------------------------------------------------------------------------
+# entry point 4: advance schedules (steps / synchronize / integrate with and without exact finish) through every
+# Wisdom-Holman-type scheme; the final synchronized state is held to the two-body oracle at sim.t
+
+SABA_PLAIN = ["1", "2", "3", "4", "10,4", "8,6,4", "10,6,4", "h8,4,4", "h8,6,4", "h10,6,4"]
+SCHED_SCHEMES = ["whfast:jacobi", "whfast:democraticheliocentric", "whfast:whds", "whfast:barycentric",
+                 "mercurius", "trace"] + ["saba:" + t for t in SABA_PLAIN]
+K_SCHED = 128.0      # one Kepler piece of a mild orbit errs by at most K_SCHED*eps*(|x|,|v|) (measured on HEAD: < 2e-4 of the allowance)
+sched_op = st.one_of(
+    st.tuples(st.just("steps"), st.integers(1, 3)),
+    st.tuples(st.just("sync")),
+    st.tuples(st.just("integrate"), st.sampled_from([0.0, 1e-6, 0.3, 1.0, 1.7, 3.2]), st.sampled_from([1, 1, 0])),
+)
+sched_case = st.fixed_dictionaries({
+    "hyp": st.sampled_from([False, False, True]),
+    "e_ell": st.one_of(S.floats(0.0, 0.7), st.sampled_from([0.0, 0.3, 0.7])),
+    "e_hyp": S.floats(1.3, 5.0),
+    "a": S.logfloats(1e-3, 1e3), "mu": S.logfloats(1e-3, 1e3),
+    "u": S.floats(-0.9, 0.9),
+    "inc": S.floats(0.0, math.pi), "Om": S.angles, "om": S.angles,
+    "dtf": st.sampled_from([0.01, 0.03, 0.1, -0.03, -0.1]),
+    "scheme": st.one_of(st.sampled_from(SCHED_SCHEMES), st.sampled_from(["saba:" + t for t in SABA_PLAIN])),
+    "safe_mode": st.sampled_from([0, 0, 1]),
+    "G": st.sampled_from(G_CHOICES),
+    "qm": st.one_of(st.just(0.0), S.logfloats(1e-9, 1.0)),
+    "ops": st.lists(sched_op, min_size=1, max_size=5),
+})
+
+
+def _sched_call(a):
+    import warnings
+    import rebound
+    warnings.simplefilter("ignore")
+    sim = rebound.Simulation()
+    sim.G = a["G"]
+    for p in a["particles"]:
+        sim.add(m=p[6], x=p[0], y=p[1], z=p[2], vx=p[3], vy=p[4], vz=p[5])
+    sch = a["scheme"]
+    if sch.startswith("saba:"):
+        sim.integrator = "saba"
+        sim.ri_saba.type = sch.split(":", 1)[1]
+        sim.ri_saba.safe_mode = a["safe_mode"]
+    else:
+        _configure(sim, sch, a["safe_mode"])
+    dt = a["dt"]
+    sim.dt = dt
+    enc = 0
+    log = []
+    for op in a["ops"]:
+        if op[0] == "steps":
+            for _ in range(op[1]):
+                sim.step()
+                if sch == "mercurius":
+                    enc = max(enc, sim.ri_mercurius._encounter_N)
+                elif sch == "trace":
+                    enc = max(enc, sim.ri_trace._encounter_N)
+        elif op[0] == "sync":
+            sim.synchronize()
+        else:
+            sim.integrate(sim.t + op[1] * dt, exact_finish_time=op[2])
+        log.append(sim.t)
+    sim.synchronize()
+    out = []
+    for i in range(2):
+        p = sim.particles[i]
+        out.append((p.x, p.y, p.z, p.vx, p.vy, p.vz))
+    return out, sim.t, sim.steps_done, enc, log
+
+
+def run_sched(c, ctx):
+    import mpmath
+    from mpmath import mpf
+    from ..oracles import c03_kepler_mp as KM
+    sch = c["scheme"]
+    hyp = c["hyp"]
+    dtf = c["dtf"]
+    ecc = {"e_ell": c["e_ell"], "e_hyp": c["e_hyp"]}
+    if sch in ("mercurius", "trace"):
+        # keep these two away from their own (star) encounter criteria: nearly circular, short forward steps
+        hyp = False
+        ecc["e_ell"] = min(c["e_ell"], 0.3)
+        dtf = min(abs(dtf), 0.03)
+    o = dict(c, hyp=hyp, dtP=dtf, **ecc)
+    r0, v0, mu, dt, e, f = realise(o)
+    massive_ok = sch in ("whfast:jacobi", "whfast:whds") or sch.startswith("saba:")
+    G = c["G"]
+    qm = c["qm"] if massive_ok else 0.0
+    m0 = mu / G / (1.0 + qm)
+    m1 = qm * m0
+    if m1 > 0:
+        M = m0 + m1
+        star = [-(m1 / M) * x for x in r0] + [-(m1 / M) * x for x in v0] + [m0]
+        plan = [(m0 / M) * x for x in r0] + [(m0 / M) * x for x in v0] + [m1]
+    else:
+        star = [0.0] * 6 + [m0]
+        plan = list(r0) + list(v0) + [0.0]
+    ops = [list(x) for x in c["ops"]]
+    arg = {"G": G, "particles": [star, plan], "scheme": sch, "safe_mode": c["safe_mode"], "dt": dt, "ops": ops}
+    what = "schedule %r through %s (safe_mode=%d)" % (ops, sch, c["safe_mode"])
+    w = worker("sched", _sched_call)
+    status, val = w.call(arg)
+    if status != "ok":
+        raise Violation("%s %s: %s" % (what, "does not terminate" if status == "hang" else "crashed", val), arg=arg)
+    out, T, steps_done, enc, log = val
+    if enc >= 2:
+        ctx.skip("%s flagged an encounter: outside the domain" % sch)
+        return
+    s1, p1 = out
+    if not (finite6(s1) and finite6(p1)):
+        raise Violation("%s yields non-finite coordinates" % what, out=[[repr(x) for x in b] for b in out], arg=arg)
+    ctx.cls(sch.split(":")[0] if sch.startswith("saba") else sch)
+    if sch.startswith("saba"):
+        ctx.cls(sch)
+    ctx.cls("safe_mode%d" % c["safe_mode"])
+    kinds = [x[0] for x in ops]
+    for i in range(1, len(ops)):
+        if ops[i - 1][0] == "steps" and ops[i][0] == "integrate":
+            ctx.cls("steps_then_integrate:frac=%g" % ops[i][1])
+    old = mpmath.mp.dps
+    mpmath.mp.dps = KM.DPS
+    try:
+        mm0, mm1, mG = mpf(m0), mpf(m1), mpf(G)
+        mM = mm0 + mm1
+        mum = mG * mM
+        rel_r = [mpf(plan[k]) - mpf(star[k]) for k in range(3)]
+        rel_v = [mpf(plan[3 + k]) - mpf(star[3 + k]) for k in range(3)]
+        com_r = [(mm0 * mpf(star[k]) + mm1 * mpf(plan[k])) / mM for k in range(3)]
+        com_v = [(mm0 * mpf(star[3 + k]) + mm1 * mpf(plan[3 + k])) / mM for k in range(3)]
+        mT = mpf(T)
+        refr, refv = KM.propagate(rel_r, rel_v, mum, mT)
+        n3 = lambda v: math.sqrt(sum(float(x) ** 2 for x in v))
+        # allowance: every Kepler piece may err by K_SCHED*eps*(|x|,|v|) wherever along the path it is applied; the
+        # oracle carries such an error from 5 points of the path to the end; at most 10 pieces per step / call
+        grid = [(rel_r, rel_v, mpf(0))]
+        for k in range(1, 5):
+            tg = mT * k / 5
+            rg, vg = KM.propagate(rel_r, rel_v, mum, tg)
+            grid.append((rg, vg, tg))
+        xs = max([n3(g[0]) for g in grid] + [n3(refr)])
+        vs = max([n3(g[1]) for g in grid] + [n3(refv)])
+        spos = EPS * xs
+        svel = EPS * vs
+        for rg, vg, tg in grid:
+            if mT - tg == 0:
+                continue
+            sp, sv = KM.propagate_sens([float(x) for x in rg], [float(x) for x in vg], mum, mT - tg, EPS * xs, EPS * vs)
+            spos, svel = max(spos, sp), max(svel, sv)
+        npieces = 10 * (steps_done + len(ops) + 1)
+        tpos = K_SCHED * npieces * spos
+        tvel = K_SCHED * npieces * svel
+        com1 = [com_r[k] + com_v[k] * mT for k in range(3)]
+        ref_p = [com1[k] + (mm0 / mM) * refr[k] for k in range(3)], [com_v[k] + (mm0 / mM) * refv[k] for k in range(3)]
+        ref_s = [com1[k] - (mm1 / mM) * refr[k] for k in range(3)], [com_v[k] - (mm1 / mM) * refv[k] for k in range(3)]
+    finally:
+        mpmath.mp.dps = old
+    worst = 0.0
+    for name, got, rr, rv in (("planet", p1, ref_p[0], ref_p[1]), ("star", s1, ref_s[0], ref_s[1])):
+        ep, ev = KM.err_norm(rr, got[0:3]), KM.err_norm(rv, got[3:6])
+        worst = max(worst, ep / tpos, ev / tvel)
+        if ep > tpos or ev > tvel:
+            raise Violation("%s: %s at t=%r is off the exact Kepler orbit by %.3g x the allowance "
+                            "(%d pieces x K=%g x eps x oracle error propagation)"
+                            % (what, name, T, max(ep / tpos, ev / tvel), npieces, K_SCHED),
+                            err_pos=ep, tol_pos=tpos, err_vel=ev, tol_vel=tvel, got=list(got),
+                            ref=[float(x) for x in rr] + [float(x) for x in rv], t_after_each_op=log, arg=arg)
+    ctx.stat_max("err_over_allowance", worst)
+    if steps_done >= 2 and len(set(kinds)) >= 2:
+        ctx.nontrivial()
+
+
 def rb_dbits(x):
     return struct.unpack("<Q", struct.pack("<d", x))[0]
 
@@ -880,6 +1054,7 @@ def subs(tier):
         Sub("step", run_step, strategy=step_case([k for k in SCHEMES if k != "whfast512"], G_CHOICES),
             quick=1200, thorough=40000, shards_quick=8, shards_thorough=16),
         Sub("multistep", run_multi, strategy=multi_case, quick=240, thorough=8000, shards_quick=8, shards_thorough=16),
+        Sub("schedule", run_sched, strategy=sched_case, quick=480, thorough=12000, shards_quick=8, shards_thorough=16),
         Sub("step512", run_step, strategy=step_case(["whfast512"], [1.0], w512=True), variant="avx512",
             quick=640, thorough=16000, shards_quick=4, shards_thorough=8),
     ]
